@@ -38,10 +38,11 @@ MIN_HITS = {
               'image:kill': 1000, 'image:exception': 1000, 'mon:keep': 500, 'crash-in:save_state': 30,
               'crash-in:save_checkpoint': 50, 'crash-after-last-round': 30, 'restart-past-last-round': 8,
               'world:fedavg': 20},
-    'thorough': {'mon:ckpt': 40000, 'mon:resume': 40000, 'crash:line': 20000, 'crash:torn': 1000, 'crash:fsop': 1500, 'fsop:rename': 200, 'fsop:remove': 100, 'fsop:close': 300, 'crash:sequence': 1500,
+    'thorough': {'mon:ckpt': 40000, 'mon:resume': 40000, 'crash:line': 20000, 'crash:torn': 1000, 'crash:fsop': 800,
+                 'fsop:rename': 100, 'fsop:remove': 30, 'fsop:close': 200, 'crash:sequence': 1500,
                  'image:kill': 20000, 'image:exception': 20000, 'mon:keep': 10000, 'crash-in:save_state': 500,
-                 'crash-in:save_checkpoint': 1000, 'crash-after-last-round': 500, 'restart-past-last-round': 100,
-                 'world:fedavg': 300, 'crash:realkill': 20},
+                 'crash-in:save_checkpoint': 400, 'crash-after-last-round': 500, 'restart-past-last-round': 60,
+                 'world:fedavg': 200, 'crash:realkill': 20},
 }
 TECHNIQUE = 'runtime fault injection: sys.monitoring failpoints at every executed line + torn GFile writes + real kills; restart-equivalence oracle against an uninterrupted reference run'
 LEVEL_TEXT = ('Single crashes are enumerated at every dynamic line event of the experiment loop, checkpointing, logging and state '
